@@ -66,6 +66,18 @@ def run(ctx):
             g = nx.gnp_random_graph(6, 0.5, seed=rng.randrange(2 ** 31))
             if nx.is_connected(g):
                 targets.append(g)
+    # the same graphs with their nodes inserted in a shuffled order (iteration order != label order)
+    shuffled = []
+    for g in targets[:: (3 if ctx.quick else 1)]:
+        order = list(g.nodes())
+        rng.shuffle(order)
+        h = nx.Graph()
+        h.add_nodes_from(order)
+        es = list(g.edges())
+        rng.shuffle(es)
+        h.add_edges_from((v, u) if rng.random() < 0.5 else (u, v) for u, v in es)
+        shuffled.append(h)
+    targets = targets + shuffled
     methods = [None, "lc_with_iso", "random", "random_with_iso", "random_with_rep", "depth_first"]
     jobs = []
     for gi, g in enumerate(targets):
